@@ -263,3 +263,23 @@ Proof.
     assert (u_inputs (w_u (fst (step w (MgrStatic i v)))) = u_inputs (w_u w)) as -> by reflexivity.
     rewrite Hm. cbn [andb s_prio]. exact E1.
 Qed.
+
+(* ---- an empty frame takes its source out of the merge ---- *)
+Lemma empty_frame_lemma w i c prio ts now :
+  (mem i (u_inputs (w_u w)) = true ->
+   let s := p_src (w_ports (fst (step w (PortData i [] ts now))) i) in
+   s_data s = [] /\ s_ts s = ts /\ forall now' l, ~ In (Port i, s) (group now' l)) /\
+  (let s := w_csrc (fst (step w (ClientData c [] prio ts now))) c in
+   s_data s = [] /\ s_ts s = ts /\ forall now' l, ~ In (Client c, s) (group now' l)).
+Proof.
+  assert (G : forall (e : sid * source) now' l, s_data (snd e) = [] -> ~ In e (group now' l)).
+  { intros e now' l He Hin. unfold group in Hin. apply filter_In in Hin as [_ Hin].
+    unfold in_group, liveb in Hin. rewrite He in Hin. rewrite !andb_false_r in Hin. discriminate. }
+  split.
+  - intros Hm. cbv zeta. destruct (step_sources w (PortData i [] ts now)) as [Hp _].
+    rewrite Hp, N.eqb_refl, Hm. cbn [andb s_data s_ts]. repeat split; try reflexivity.
+    intros now' l. apply G. reflexivity.
+  - cbv zeta. destruct (step_sources w (ClientData c [] prio ts now)) as [_ Hc].
+    rewrite Hc, N.eqb_refl. cbn [s_data s_ts]. repeat split; try reflexivity.
+    intros now' l. apply G. reflexivity.
+Qed.
